@@ -678,6 +678,56 @@ theorem guarded_set_membership_eq_ref (first : Clause) (rest : List Clause)
   refine ⟨res, by simp only [setVC, hcf, bind, Except.bind]; exact h1, hsem, fun hnu => ?_⟩
   rw [VC.allows_of_notUnion res v hnu, hsem]
 
+/-- **`NoPoint` is only asked of sets with a `!=` / `!=V.*` clause**: without one the running constraint is never a
+union (`range_set_membership_eq_ref`), and `>=V, <=V` simply collapses to the `Version` `V`.  So for every comma set:
+the guard (candidate regular for each literal) suffices, plus — only when some clause is `!=` / `!=V.*` — that no
+inclusive lower end equals an inclusive upper end and that the `!=` literals carry no local label. -/
+theorem guarded_set_membership_eq_ref' (first : Clause) (rest : List Clause)
+    (hok : ∀ c ∈ first :: rest, ClauseOk c.op c.lit ∧ ((c.op = .eqStar ∨ c.op = .neStar) → c.lit.isFinal = true) ∧
+      (c.op = .ne → c.lit.loc = none))
+    (hnp : (∃ c ∈ first :: rest, c.op = .ne ∨ c.op = .neStar) →
+      NoPoint (setLoI (first :: rest)) (setHiI (first :: rest)))
+    (v : Version) (hv : v.wf = true) (hreg : ∀ c ∈ first :: rest, Reg1 v c.lit) :
+    ∃ r, setVC (first :: rest) = .ok r ∧ r.allowsPlain v = contains (first :: rest) v ∧
+      (r.notUnion → r.allows v = .ok (contains (first :: rest) v)) := by
+  by_cases hne : ∃ c ∈ first :: rest, c.op = .ne ∨ c.op = .neStar
+  · exact guarded_set_membership_eq_ref first rest hok (hnp hne) v hv hreg
+  · have hno : ∀ c ∈ first :: rest, c.op ≠ .ne ∧ c.op ≠ .neStar := fun c hc =>
+      ⟨fun e => hne ⟨c, hc, Or.inl e⟩, fun e => hne ⟨c, hc, Or.inr e⟩⟩
+    obtain ⟨r, h1, h2⟩ := range_set_membership_eq_ref first rest (fun c hc =>
+      ⟨(hok c hc).1, fun e => (hok c hc).2.1 (Or.inl e), (hno c hc).1, (hno c hc).2⟩) v hv hreg
+    -- without `!=` the result is never a union
+    have hnu : r.notUnion := by
+      have spec : ∀ c ∈ first :: rest, clauseVC c.op c.lit = .ok (.single (clauseMember c.op c.lit)) := fun c hc =>
+        (clauseMember_at c.op c.lit ⟨(hok c hc).1.1, (hok c hc).1.2.1, (hok c hc).1.2.2, (hok c hc).2.1⟩ (hno c hc) v
+          (hreg c hc)).1
+      have e1 : setVC (first :: rest) = rest.foldlM (fun acc d => do VC.intersect acc (← clauseVC d.op d.lit))
+          (.single (clauseMember first.op first.lit)) := by
+        simp only [setVC, spec first (by simp)]; rfl
+      rw [e1, foldClauses_members rest _ (fun d hd => spec d (by simp [hd]))] at h1
+      exact fold_single_notUnion _ (.single (clauseMember first.op first.lit)) r trivial h1
+    refine ⟨r, h1, ?_, fun _ => h2⟩
+    rw [VC.allows_of_notUnion r v hnu] at h2
+    injection h2
+
+/-- `NoPoint` is a restriction of the PROOF, not a boundary of the model: `!=1.*, <=2.dev0` violates it (the
+inclusive lower end `2.dev0` of `!=1.*` equals the inclusive upper end), the model puts the `Version` `2.dev0` into a
+union — `<1.dev0 || ==2.dev0` — and still answers like the reference, at the point itself and around it.  (On the
+real code 17 615 probing pairs violating `NoPoint` inside the guard show no deviation either.) -/
+example : let s : List Clause := [⟨.neStar, mk' 0 [1] none none none none⟩,
+      ⟨.le, mk' 0 [2] none none (some ⟨.dev, 0⟩) none⟩]
+    ¬ NoPoint (setLoI s) (setHiI s) ∧
+    setVC s = .ok (.union [.rng ⟨none, some (mk' 0 [1] none none (some ⟨.dev, 0⟩) none), false, false⟩,
+      .ver (mk' 0 [2] none none (some ⟨.dev, 0⟩) none)]) ∧
+    (∀ v ∈ [mk' 0 [2] none none (some ⟨.dev, 0⟩) none, mk' 0 [0, 5] none none none none,
+        mk' 0 [1, 5] none none none none, mk' 0 [3] none none none none],
+      (setVC s >>= fun r => r.allows v) = .ok (contains s v)) := by
+  intro s
+  refine ⟨?_, by decide, by decide⟩
+  intro h
+  exact h (mk' 0 [2] none none (some ⟨.dev, 0⟩) none) (by simp [s, setLoI, clauseLoI, nextStable, firstDevrelease, mk', isStable, isUnstable, isPrerelease, isDevrelease, relNext, relNextMajor, relMajor, zeros])
+    (mk' 0 [2] none none (some ⟨.dev, 0⟩) none) (by simp [s, setHiI, clauseHiI]) rfl
+
 /-- the hypotheses are satisfiable: `==2.0, !=1.0.post1, >1.0rc1` (literals `1.0.post1` and `1.0rc1` are siblings
 of each other) on the candidate `2.0`, equal to the first literal and of another release than the others -/
 example : let s : List Clause := [⟨.eq, mk' 0 [2, 0] none none none none⟩,
